@@ -838,6 +838,9 @@ def extra(ctx, prop):
             toks = [ctx.rng.choice(["s", "i5", "t", "d", "lst", "dto", "uni"]) for _ in range(k)]
             script = [{"op": "wfc", "init": ctx.rng.choice(["z", "s"]), "check": [{"ok": t_} for t_ in toks],
                        "decide": [ctx.rng.choice([1, 2])] * (k - 1) + [None], "catch": True, "cserdes": True}]
+            if i % 4 == 3:
+                # the empty text state through a serializer that writes text as it is: empty recorded payloads
+                script[0].update({"init": "e", "check": [{"ok": "e"}] * k, "cserdes": "raw"})
             if ctx.rng.random() < 0.5:
                 script = [{"op": "child", "body": script, "limit": 2000, "summary": "", "catch": True}]
             ex = E.run_execution(script, ctx.rng.randrange(1 << 30), crash_p=0.0, fault_p=0.0)
